@@ -217,6 +217,20 @@ static void nonsingular_case(vf::Ctx& ctx)
         for (int i = 0; i < n; i++) fin = fin && std::isfinite((double) std::abs(bw[i]));
         if (fin) { b = bw; ctx.count("rhs/(A-sigma*I)w"); }
     }
+    // right-hand sides with exact zeros (unit vectors, support on a leading / trailing segment, scattered support, the zero vector): a substitution loop
+    // that treats zero entries specially - or skips ahead to the first nonzero - meets the 1x1 / 2x2 pivot structure at every offset this way
+    else if (r.coin(0.6))
+    {
+        const int kind = (int) r.range(0, 4);
+        static const char* ZK[] = {"unit-vector", "trailing-support", "leading-support", "scattered-support", "zero-vector"};
+        const int j = (int) r.range(0, n - 1);
+        for (int i = 0; i < n; i++)
+        {
+            const bool keep = kind == 0 ? i == j : kind == 1 ? i >= j : kind == 2 ? i <= j : kind == 3 ? r.coin(0.3) : false;
+            if (!keep) b[i] = T(0);
+        }
+        ctx.count(std::string("rhs/") + ZK[kind]);
+    }
     const VecCLD bl = toCLD(b);
     const LD fn = fnorm(F), bn = fnorm(bl);
     Outcome first;
